@@ -66,7 +66,8 @@ def make_param(x, st: St, name: str, spec):
             st.pc.append(pnodes.member_of(t, pnodes.universe()))
         return V("kind", t)
     if spec == "kindset":
-        return V("opq", "p:" + name)
+        # a NodeKind flag value (one member or an |-combination): the string of its members' characters
+        return V("kindset_s", z3.String(name))
     if spec == "intset":
         return V("iset", name)
     if spec == "strset":
@@ -1832,6 +1833,8 @@ def isinstance_(x, st, v: V, tnode, tv):
     kmap = {"str": {"str"}, "int": {"int", "bool"}, "bool": {"bool"}, "float": {"float"},
             "tuple": {"tuple"}, "NoneType": {"none"}, "dict": set(), "list": set(), "set": {"set"},
             "frozenset": {"set"}}
+    if v.k in ("kind", "kindset", "kindset_s"):
+        return z3.BoolVal("NodeKind" in names)
     if v.k == "opq":
         return z3.Bool(f"isinst!{v.t}!{'|'.join(names)}")
     if v.k == "strlist":
